@@ -111,6 +111,9 @@ def run(ctx, rep):
         # "under any accepted custom delimiter set": the lexer's fixed 2-byte arithmetic is right only for the sets validate() lets through
         from props import c06
         c06.check_delim(crate, rep, cfg)
+        # comments and raw bodies end where the lexer's searches say: the scanning loops / searches of lexer.rs are the reviewed ones
+        # (C06.LEXPROG, shared)
+        c06.check_lexprog(crate, rep, cfg)
 
 
 def _bool_sources(body, local, projs, depth=0, seen=None):
